@@ -1,0 +1,52 @@
+//go:build verif
+
+// Contracts for access-log record fields (property C38, reduced core). Comment-only.
+
+package vgirpc
+
+// isLowerHex: exactly n characters, each 0-9 or a-f.
+//
+//@ pure func hexDigit(c int) bool = (48 <= c && c <= 57) || (97 <= c && c <= 102)
+//@ pure func allLowerHex(s string) bool = forall i int :: 0 <= i && i < len(s) ==> hexDigit(s[i])
+//@ func isLowerHex
+//@   property C38
+//@   modifies nothing
+//@   ensures [exact] result <==> (len(s) == n && allLowerHex(s))
+//@   loop 0 invariant 0 <= i && i <= len(s) && len(s) == n
+//@   loop 0 invariant forall k int :: 0 <= k && k < i ==> hexDigit(s[k])
+
+// currentTraceContext: trace and span id are both well formed (32 resp. 16 lower-case hex
+// characters) or both absent — whatever the installed provider returns, or if it panics.
+//
+// (the deferred literal: a provider panic blanks both ids, otherwise it leaves them alone)
+//@ func currentTraceContext$1
+//@   property C38
+//@   ensures [blanks] (traceID == old(traceID) && spanID == old(spanID)) || (traceID == "" && spanID == "")
+//@ func currentTraceContext
+//@   property C38
+//@   ensures [bothorneither] (result0 == "" && result1 == "") || (len(result0) == 32 && len(result1) == 16 && allLowerHex(result0) && allLowerHex(result1))
+
+// stream ids are 32 lower-case hex characters
+//
+//@ func RandomStreamID
+//@   property C38
+//@   ensures [shape] len(result) == 32 && lowerHex(result)
+
+// RedactClaims (the default policy): nothing reaches the record under a sensitive key name except
+// the placeholder; a non-sensitive key keeps its value; no key is invented. claimSensitive is
+// the language of the reference pattern below (an unanchored, case-insensitive search), and the
+// pattern the code compiles denotes the same language.
+//
+//@ regex defaultClaimRedactPattern [C38] == `(?i)password|token|secret|key|authorization|email|phone|address|birthdate|gender|^name$|given_name|family_name|middle_name|nickname|preferred_username|picture|profile|website`
+//@ func RedactClaims
+//@   property C38
+//@   loop 0 invariant out != nil && out != claims
+//@   loop 0 invariant forall k string :: has(out, k) ==> has(claims, k) && (claimSensitive(k) ==> out[k] == iface("[redacted]")) && (!claimSensitive(k) ==> out[k] == claims[k])
+//@   ensures [redacted] forall k string :: has(result, k) ==> has(claims, k) && (claimSensitive(k) ==> result[k] == iface("[redacted]")) && (!claimSensitive(k) ==> result[k] == claims[k])
+
+// applyClaimRedaction: the default policy runs exactly when no redactor is installed, on the
+// claims it was given.
+//
+//@ func applyClaimRedaction
+//@   property C38
+//@   at call RedactClaims assert [default] arg0 == claims && p == nil
